@@ -323,6 +323,9 @@ def execute(scn):
     compiled_with = None
     compiled_ok = False
     default_set = {}  # which PDK the session explicitly made the default
+    session_registered = set()
+    # if the registry could not be emptied at start-up, every PDK has been registered by its import
+    n_registered = lambda: len(session_registered) if T.get("pdk_registry_reset", True) else len(PDKS)  # noqa
     for op in scn["ops"]:
         if res["findings"]:
             break
@@ -330,6 +333,7 @@ def execute(scn):
         try:
             if k == "register":
                 h.pdk.register(pdk_module(op[1]))
+                session_registered.add(op[1])
                 probe("registered:" + op[1])
             elif k == "set_default":
                 h.pdk.set_default(pdk_module(op[1]) if op[2] == "module" else pdk_module(op[1]).__name__)
@@ -353,7 +357,7 @@ def execute(scn):
                 before = [snapshot(g_[0]) for g_ in groups]
                 try:
                     if via == "default":
-                        if len(P._mgr.modules) > 1 and not default_set.get(pname):
+                        if n_registered() > 1 and not default_set.get(pname):
                             h.pdk.set_default(pm)
                             default_set.clear()
                             default_set[pname] = True
